@@ -4,6 +4,7 @@ import OsmVerif.Oracle.C13
 import OsmVerif.Oracle.C15
 import OsmVerif.Oracle.C19
 import OsmVerif.Oracle.C14
+import OsmVerif.Oracle.C20
 /-! Line-protocol driver: one case per input line `<Cxx> <op> <payload…>`, one output line each. -/
 open OsmVerif.Oracle
 
@@ -15,6 +16,7 @@ def dispatch (line : String) : String :=
   | "C15" :: rest => C15.handle rest
   | "C19" :: rest => C19.handle rest
   | "C14" :: rest => C14.handle rest
+  | "C20" :: rest => C20.handle rest
   | _ => "bad-op"
 
 partial def loop (h : IO.FS.Stream) (out : IO.FS.Stream) : IO Unit := do
